@@ -36,6 +36,20 @@ class ProfileModel:
         env = {}
         self.state = {}
         lift_module_helpers(repo.mod("profile").tree, funcs, None, env, self.state)
+        # class-level tables of Profile (`NAME = {}` in the class body) are process-wide state as well
+        import ast as _ast
+
+        cls_tables = self.state.setdefault("globals", {})
+        for node in repo.cls("profile::Profile").body:
+            tgt = node.targets[0] if isinstance(node, _ast.Assign) and len(node.targets) == 1 else getattr(node, "target", None)
+            val = getattr(node, "value", None)
+            if isinstance(tgt, _ast.Name) and val is not None:
+                fresh = dict if (isinstance(val, _ast.Dict) and not val.keys) or (isinstance(val, _ast.Call) and _ast.unparse(val.func) == "dict" and not val.args) \
+                    else list if (isinstance(val, _ast.List) and not val.elts) else set if (isinstance(val, _ast.Call) and _ast.unparse(val.func) == "set" and not val.args) else None
+                if fresh is not None:
+                    obj = cls_tables.setdefault("Profile." + tgt.id, fresh())
+                    for owner in ("Profile", "self", "cls"):
+                        env[f"{owner}.{tgt.id}"] = obj
         self.init = Lifted(repo.func("profile::Profile.__init__"), funcs, env=env)
         self.update = Lifted(repo.func("profile::Profile.update"), funcs, env=env)
         self.write = Lifted(repo.func("profile::Profile.get_sam_profile_data"), funcs, env=env)
